@@ -7,7 +7,7 @@ V = os.path.dirname(os.path.dirname(os.path.abspath(__file__)))
 CHECKS = [
  # id, engine, level, text, note, technique, design_ref
  ("C02", "seqx", "exploration",
-  "every constant expression tree of depth<=1 over 12 int/float atoms and {+,-,*,/,%,**} plus all depth-2 trees (left-, right-nested, unparenthesised) over a 7-atom (thorough 12-atom) set, in 13 syntactic positions (assignment, +=, both comparison sides, condition, index, int()/float()/string(), next to a capture on either side, parenthesised, settime); compiled with and without the optimiser, run on 3 lines, stores compared bit-exactly",
+  "every constant expression tree of depth<=1 over 13 int/float atoms and {+,-,*,/,%,**} plus all depth-2 trees (left-, right-nested, unparenthesised) over a 7-atom (thorough 12-atom) set, in 16 syntactic positions (assignment, +=, both comparison sides, condition, index, int()/float()/string(), next to a capture on either side, parenthesised, settime, string concatenation with a literal / a capture, comparison with a string capture); compiled with and without the optimiser, run on 5 lines, stores compared bit-exactly",
   "deeper trees are not enumerated; the unoptimised compile is the reference (differential oracle), so a defect shared by both pipelines is invisible here (C01 covers it)",
   "exhaustive bounded program enumeration with a differential oracle on the real compiler and VM", "§3 C02"),
  ("C20", "gosim", "exploration",
